@@ -29,12 +29,21 @@ RULE = ("seeded generator. (a) sequential call sequences (15-45 calls) on the re
         "auth requests on ONE QUIC connection, concurrently against an authenticator with a rendezvous delay (so the handlers overlap if the "
         "server lets them) or one by one, some with rejected credentials: one online notification, GET /online counts the connection once "
         "while it is there and not at all after it is closed (2 directed scripts per run + random ones). "
+        "Scripts also hold auth requests of raw HTTP/3 connections inside a blocking authenticator (a slow backend) and let the connection "
+        "die (CloseWithError) or cancel the request while the auth is pending, or right after the backend's answer, or not at all; the backend "
+        "then accepts or rejects, one connection after the other in a shuffled order; several such connections at once, with 0, 1, 2 other live "
+        "connections of the same user and other users around (2 directed scripts per run + random ones): per connection the server reports "
+        "nothing, or online, or online then offline (window between the answer and the end of that connection's handler; EventLogger "
+        "Connect/Disconnect by client address), and the listing keeps counting the live authenticated connections. On EVERY e2e script, "
+        "after every step: per user no prefix of the recorded LogOnlineState calls has more offline than online, per client address Connect and "
+        "Disconnect alternate starting with Connect, and at the quiescent point #online - #offline = live authenticated connections. "
         "Non-trivial = a sequence with a refused report and >= 2 snapshots, a history with really overlapping calls, a stress run with clears, "
         "an e2e run with a refusal.")
 ASSUMPTIONS = [
     "sync.RWMutex gives mutual exclusion between a write section and every other section (runtime, not modelled); each method body is one section",
     "encoding/json (Marshal of the maps, Decoder.Decode of the kick body), net/url query parsing and net/http's ResponseWriter are libraries: the model takes the decoded id list / query value as input",
-    "online/offline notifications are paired by the server (once per accepted auth, once when that connection's handler returns): hypothesis `paired` of C15_online_exact, owed by C01",
+    "online/offline notifications are paired by the server (once per accepted auth, once when that connection's handler returns): hypothesis `paired` of C15_online_exact; proved of the world model of core/server (C15_notifications_paired: auth handler in atomic steps, connection dying at any point of them) and checked end to end on every e2e script",
+    "http3.Server.ServeQUICConn returns only after every request handler it started has returned (handleConn: wg.Wait): in the model handleClient's continuation is not enabled while an auth handler of the connection is in flight",
     "after quic.Conn.CloseWithError no stream or datagram of that connection carries bytes any more and http3's ServeQUICConn returns (quic-go; modelled as: a closed connection makes no report, its handler may return); observed end to end on every refused step",
     "TCP sites: the refusing copy direction's errDisconnect is the first value to reach copyTwoWayEx's channel (hypothesis `other_first = false` of the site theorems; the other case is C06's open finding veto-swallowed-other-direction-returned-first)",
     "fewer than 2^63 online notifications per user (Go int wrap), stated as a hypothesis of the online theorems",
@@ -321,6 +330,27 @@ class E2EScript:
         self.steps.append({"a": "rawauth", "slot": slot, "id": i, "reqs": list(reqs), "conc": bool(conc), "proto": auth_proto()})
         return slot
 
+    def pendauth(self, conns, settle=None):
+        """raw HTTP/3 connections whose auth request is held inside a slow authenticator backend; conns = list of
+        (user, "ok" | "bad" = what the backend finally answers, fault, when): fault "close" = the client gives up and closes
+        the QUIC connection, "cancel" = the client cancels the request and keeps the connection, "none"; when "pending" =
+        while the backend is still deciding, "decided" = right after it answered (racing the rest of the handler).  The
+        backend answers one connection after the other in a shuffled order.  Every connection gets a slot (its position
+        among the connections the server ever saw authenticate or try to); the ones that are still there and accepted
+        are connections of their user and can be closed later."""
+        cs = []
+        for (i, decide, fault, when) in conns:
+            slot = self.nslot
+            self.nslot += 1
+            cs.append({"slot": slot, "id": i, "decide": decide, "fault": fault, "when": when})
+            if decide == "ok" and fault in ("none", "cancel"):
+                self.raws[slot] = i
+        order = list(range(len(cs)))
+        self.rng.shuffle(order)
+        self.steps.append({"a": "pendauth", "slot": 0, "id": 0, "conns": cs, "order": order,
+                           "settle_ms": settle or self.rng.choice([80, 120, 200]), "proto": auth_proto()})
+        return [c["slot"] for c in cs]
+
     def drop(self, s):
         del self.slots[s]
         for f in [f for f, v in self.flows.items() if v[0] == s]:
@@ -441,6 +471,56 @@ def gen_e2e_multi_auth(rng):
     return out
 
 
+PEND_FAULTS = [("close", "pending"), ("close", "pending"), ("close", "decided"), ("cancel", "pending"), ("cancel", "decided"), ("none", "pending")]
+
+
+def rand_pend(rng, n, k):
+    out = []
+    for _ in range(k):
+        fault, when = rng.choice(PEND_FAULTS)
+        out.append((rng.randrange(n), "ok" if rng.random() < 0.75 else "bad", fault, when))
+    return out
+
+
+def gen_e2e_pending(rng):
+    """connections that die (or whose request is cancelled) while their auth is pending at a slow authenticator
+    backend, which then accepts or rejects: with 0, 1 and 2 other live connections of the same user, next to other
+    users, several at once, closed before / right after the backend's answer: whatever the server reports about such a
+    connection is paired (never offline without online), and the listing keeps showing the live connections"""
+    out = []
+    # (1) one user: nobody else / one / two other live connections of that user
+    sc = E2EScript(rng, rng.choice(["", "s3cret"]), ["alice", "bob"])
+    sc.pendauth([(0, "ok", "close", "pending")])
+    a = sc.connect(0)
+    sc.pendauth([(0, "ok", "close", "pending")])
+    a2 = sc.connect(0) if rng.random() < 0.5 else sc.rawauth(0, ["ok"], False)
+    sc.pendauth([(0, "ok", "close", "pending"), (0, "bad", "close", "pending"), (0, "ok", "close", "decided")])
+    f = sc.new_flow(a, rng.choice(["tcp", "udp"]))
+    sc.move(f, "up")                                              # the live connection is still usable and accounted
+    sc.close(a)
+    sc.pendauth([(0, rng.choice(["ok", "bad"]), "close", "pending"), (0, "ok", "close", "pending")])
+    sc.close(a2)
+    sc.pendauth([(0, "ok", "close", "pending")])
+    out.append(sc.case())
+    # (2) other users around; closed, cancelled and patient connections side by side
+    sc = E2EScript(rng, rng.choice(["", "s3cret"]), ["alice", "bob"])
+    b = sc.connect(1)
+    a = sc.connect(0)
+    sl = sc.pendauth([(0, "ok", "close", "pending"), (1, "ok", "none", "pending"), (0, "ok", "cancel", "pending"),
+                      (1, "bad", "none", "pending"), (1, "ok", "close", "pending")])
+    f = sc.new_flow(a, "tcp")
+    sc.move(f, "up")
+    sc.kick(0)
+    sc.move(f, rng.choice(["up", "down"]))                        # the stock client is kicked out, alice's raw connection stays
+    sc.pendauth([(0, "ok", "close", "decided"), (0, "bad", "cancel", "pending"), (1, "ok", "close", "pending")])
+    sc.close(sl[2])                                               # the connection whose request was cancelled: alice is gone
+    sc.pendauth(rand_pend(rng, 2, 3))
+    sc.close(sl[1])
+    sc.close(b)
+    out.append(sc.case())
+    return out
+
+
 def gen_e2e(rng):
     """script for a real server + real clients over loopback"""
     pool = rng.sample(["alice", "bob", "carol"], rng.randint(1, 3))
@@ -460,6 +540,8 @@ def gen_e2e(rng):
         if not sc.slots or r < 0.25:
             if rng.random() < 0.25:
                 sc.rawauth(rng.randrange(n), ["ok"] * rng.choice([1, 2, 2, 3]) + ["bad"] * rng.choice([0, 0, 1]), rng.random() < 0.8)
+            elif rng.random() < 0.3:
+                sc.pendauth(rand_pend(rng, n, rng.choice([1, 1, 2, 3])))
             else:
                 sc.connect(rng.randrange(n))
         elif r < 0.32:
@@ -491,7 +573,29 @@ def e2e_term(c, o):
     terms = []
     for st, ob in zip(c["steps"], obs):
         a, res = st["a"], ob["result"]
-        if a == "rawauth":
+        if a == "pendauth":
+            # replayed in the auth handler's atomic steps, each with the notifications recorded for that connection
+            pend = ob.get("pend") or []
+            if res != "ok" or len(pend) != len(st["conns"]) or not all(p.get("entered") for p in pend):
+                return None
+            nt = lambda ns: "[" + ";".join("(%d,%s)" % (x[0], "true" if x[1] else "false") for x in ns) + "]"
+            for pc in st["conns"]:
+                terms.append("WE (EAuthBegin %d) WUnit" % pc["id"])
+            for pc in st["conns"]:
+                if pc["fault"] == "close" and pc["when"] == "pending":
+                    terms.append("WE (EClientClose %d) WUnit" % pc["slot"])
+            for j in st["order"]:
+                pc, po = st["conns"][j], pend[j]
+                terms.append("WE (EAuthDecide %d %s) WUnit" % (pc["slot"], "true" if pc["decide"] == "ok" else "false"))
+                if pc["fault"] == "close" and pc["when"] == "decided":
+                    terms.append("WE (EClientClose %d) WUnit" % pc["slot"])
+                ups = [x for x in po.get("notes") or [] if x[1]]
+                downs = [x for x in po.get("notes") or [] if not x[1]]
+                if pc["decide"] == "ok" or ups:
+                    terms.append("WN (EAnnounce %d) %s" % (pc["slot"], nt(ups)))
+                if pc["fault"] == "close" or downs:
+                    terms.append("WN (EHandlerReturn %d) %s" % (pc["slot"], nt(downs)))
+        elif a == "rawauth":
             # one connection whatever the number of accepted requests: the first to enter the handler authenticates,
             # every other request answered StatusAuthOK found the connection authenticated
             okst = st["proto"]["status"]
@@ -512,7 +616,7 @@ def e2e_term(c, o):
                 terms.append("WE (EReport %d %s %d false) (WBool %s)" % (st["slot"], site, tx if tx > 0 else rx, "true" if acc else "false"))
             if ob.get("alive") is not None:
                 terms.append("WAlive %d %s" % (st["slot"], "true" if ob["alive"] else "false"))
-        for _ in ob.get("downs") or []:
+        for _ in (ob.get("downs") or []) if a != "pendauth" else []:
             terms.append("WE (EHandlerReturn %d) WUnit" % st.get("slot", 0))
         terms.append("WE (%s) (WHttp 200 (BOnline [%s]))" % (G("/online"), ";".join("(%d,(%d)%%Z)" % (m[0], m[1]) for m in ob.get("online") or [])))
     terms.append("WE (%s) (WHttp 200 (BStats [%s]))" % (G("/traffic"), ";".join("(%d,(%d,%d))" % (m[0], m[1], m[2]) for m in o.get("final") or [])))
@@ -533,6 +637,7 @@ def gen(rng, tier):
     for _ in range(1 if tier == "quick" else 3):
         cases += gen_e2e_directed(rng)
         cases += gen_e2e_multi_auth(rng)
+        cases += gen_e2e_pending(rng)
     for _ in range(10 if tier == "quick" else 60):
         cases.append(gen_e2e(rng))
     for _ in range(160 * scale):
@@ -621,7 +726,9 @@ def klass(c, o):
     if c["k"] == "e2e":
         sites = e2e_refusal_sites(c, o)
         multi = any(st["a"] == "rawauth" and st["conc"] and st["reqs"].count("ok") > 1 for st in c["steps"])
-        return "e2e:" + ("refusal@" + "+".join(sites) if sites else "no-refusal") + ("+concurrent-auths-on-one-conn" if multi else "")
+        pend = any(st["a"] == "pendauth" for st in c["steps"])
+        return ("e2e:" + ("refusal@" + "+".join(sites) if sites else "no-refusal") + ("+concurrent-auths-on-one-conn" if multi else "") +
+                ("+fault-while-auth-pending" if pend else ""))
     return "stress:clears=%s,refused=%s" % ("0" if not o.get("clears") else ">0", "0" if not o.get("refused") else ">0")
 
 
@@ -638,7 +745,7 @@ def nontrivial(c, o):
 def fingerprint(c, o):
     """stable name of the violated clause (one VIOLATION line per clause and case kind)"""
     why = o.get("why") or ""
-    for key, name in (("not disconnected", "kick-disconnects"), ("API secret", "unauthorized-request-served"), ("conservation broken", "conservation"), ("final snapshot", "conservation"), ("proxied", "kick-exactly-once"), ("could not proxy", "kick-exactly-once"), ("LogTraffic(", "kick-exactly-once"), ("kicked", "kick-exactly-once"),
+    for key, name in (("unpaired", "online-pairing"), ("not disconnected", "kick-disconnects"), ("API secret", "unauthorized-request-served"), ("conservation broken", "conservation"), ("final snapshot", "conservation"), ("proxied", "kick-exactly-once"), ("could not proxy", "kick-exactly-once"), ("LogTraffic(", "kick-exactly-once"), ("kicked", "kick-exactly-once"),
                       ("refused", "kick-exactly-once"), ("online", "online-count"), ("panic", "panic"), ("malformed", "malformed-response")):
         if key in why:
             return "C15-%s-%s" % (c["k"], name)
@@ -747,7 +854,8 @@ LEVEL_TEXT = ("Machine-checked Coq theorems over a Gallina model of trafficStats
               "below 2^64), a report is refused iff a kick of that user is pending and the refusal consumes it, the online listing shows exactly "
               "the live connection count and never a non-positive entry; and over a world model of core/server's connections and its four traffic-report "
               "sites: a refused report at any site closes exactly that QUIC connection, the listing follows the connections for every event sequence, "
-              "a pending kick disconnects the user at its next report wherever it is made. The model is tied to /repo on every run by a call-by-call differential "
+              "a pending kick disconnects the user at its next report wherever it is made, the online/offline notifications are paired per connection and per user "
+              "(also when a connection dies while its auth is pending at a slow authenticator). The model is tied to /repo on every run by a call-by-call differential "
               "run of the real handler and by recorded concurrent histories checked for linearizability in the Coq kernel (lib/Lin.v, soundness proved).")
 LEVEL_NOTE = ("Trusted: Coq kernel + vm_compute; hand-written model; sync.RWMutex; encoding/json, net/http. No axioms. Linearizability of the Go object "
               "is sampled, not proved. The pairing of online/offline notifications by core/server and the disconnect on a refused report are modelled (C15_Sites.v) and observed end to end; quic-go's close semantics are trusted.")
